@@ -884,7 +884,13 @@ def emptiness_not_decided_by_volume(ctx, rule, classes=None):
                 continue
             skips = x.body and isinstance(x.body[0], (ast.Continue, ast.Return, ast.Break)) and \
                 not (isinstance(x.body[0], ast.Return) and _mentions_division_context(fi, x))
-            if skips:
+            # .. or that discards what the container holds (`x.contents = {}`, `.clear()`, `del x.contents[..]`)
+            discards = any((isinstance(y, ast.Assign) and any(isinstance(t_, ast.Attribute) and t_.attr == 'contents' for t_ in y.targets))
+                           or (isinstance(y, ast.Call) and isinstance(y.func, ast.Attribute) and y.func.attr in ('clear', 'pop', 'popitem') and
+                               isinstance(y.func.value, ast.Attribute) and y.func.value.attr == 'contents')
+                           or (isinstance(y, ast.Delete) and any('contents' in ast.unparse(t_) for t_ in y.targets))
+                           for b in x.body for y in ast.walk(b))
+            if skips or discards:
                 bad.append((fi, x.lineno, ast.unparse(x.test)))
     anchor = model.func('Container.__init__')
     for fi, line, txt in bad:
@@ -1036,3 +1042,155 @@ def stepped_extent_counts_round_up(ctx, rule, classes=('Slicer', 'PlateSlicer', 
 def call_name_tail(c):
     f = c.func
     return f.attr if isinstance(f, ast.Attribute) else (f.id if isinstance(f, ast.Name) else None)
+
+
+def _display_observers(model):
+    """Methods that answer in display precision: their body rounds with `config.precisions[..]` (directly, through a local
+    `precision`, or by returning what another such method answered)."""
+    out = {}
+    funcs = [fi for fi in model.funcs.values() if fi.cls is not None and fi.parent is None and fi.mod.rel == 'pyplate/pyplate.py']
+    for fi in funcs:
+        if not (fi.name.startswith('get_') or fi.name in ('dataframe', 'volumes', 'moles')):
+            continue
+        txt = ast.unparse(fi.node)
+        if 'precisions' in txt and ('round(' in txt or '.round(' in txt):
+            out.setdefault(fi.name, []).append(fi.qualname)
+    changed = True
+    while changed:
+        changed = False
+        for fi in funcs:
+            if fi.name in out and fi.qualname in out[fi.name]:
+                continue
+            if not fi.name.startswith('get_'):
+                continue
+            for r in ast.walk(fi.node):
+                if isinstance(r, ast.Return) and r.value is not None and any(
+                        isinstance(c, ast.Call) and isinstance(c.func, ast.Attribute) and c.func.attr in out and
+                        (c.func.attr != fi.name or not (isinstance(c.func.value, ast.Name) and c.func.value.id == 'self'))
+                        for c in ast.walk(r.value)):
+                    out.setdefault(fi.name, []).append(fi.qualname)
+                    changed = True
+                    break
+    return out
+
+
+def decisions_not_taken_on_display_values(ctx, rule, classes, exempt=('dataframe', 'visualize', '_repr_html_', '__repr__', '__str__')):
+    """What an operation does, and what the recipe records, is decided on the stored amounts.  The observers that answer in
+    display precision (whole microlitres by default) cannot tell 0.4 uL from nothing: an `if` that skips or selects work on
+    their answer (`if plate.get_volume() == before.get_volume()`, an early return when `get_volumes(..)` shows nothing) drops
+    every amount below the display resolution.  The same holds for a test on a value rounded with `config.precisions[..]`."""
+    model = ctx.model.plain()
+    obs = _display_observers(model)
+    if len(obs) < 2:
+        from ..model import AnalysisError
+        raise AnalysisError(f"display observers not found (found {sorted(obs)})")
+    n = 0
+    bad = []
+    for fi in model.funcs.values():
+        if fi.mod.rel != 'pyplate/pyplate.py' or fi.parent is not None or fi.cls is None or fi.cls.name not in classes:
+            continue
+        if fi.name in exempt or fi.name in obs:
+            continue
+        n += 1
+        assigns = {}
+        for st in ast.walk(fi.node):
+            if isinstance(st, ast.Assign):
+                for t in st.targets:
+                    for nm in ([t] if isinstance(t, ast.Name) else (t.elts if isinstance(t, ast.Tuple) else [])):
+                        if isinstance(nm, ast.Name):
+                            assigns.setdefault(nm.id, []).append(st.value)
+
+        def observer_call(x):
+            """a call of a method that answers in display precision (for a name several classes define: unless the receiver
+            is known to be of a class whose version does not)"""
+            if not (isinstance(x, ast.Call) and isinstance(x.func, ast.Attribute) and x.func.attr in obs):
+                return False
+            owners = {q.split('.')[0] for q in obs[x.func.attr]}
+            others = {f2.cls.name for f2 in model.funcs.values() if f2.cls is not None and f2.parent is None and
+                      f2.name == x.func.attr} - owners
+            if not others:
+                return True
+            recv = x.func.value
+            known = None
+            if isinstance(recv, ast.Name) and recv.id == 'self':
+                known = fi.cls.name
+            elif isinstance(recv, ast.Name):
+                ann = fi.annotation(recv.id) if recv.id in fi.all_param_names() else None
+                txt = ast.unparse(ann) if ann is not None and not isinstance(ann, str) else (ann or '')
+                names = {t for t in txt.replace('|', ' ').replace('[', ' ').replace(']', ' ').replace(',', ' ').split()}
+                if names and names <= others:
+                    known = sorted(names)[0]
+            return not (known is not None and known in others)
+
+        NUM = {'abs', 'sum', 'max', 'min', 'any', 'all', 'float', 'int', 'bool'}
+
+        def coarse(e, line, depth=0, need_call=False):
+            """e is (arithmetic / comparison over) the answer of a display observer, or - unless need_call - a value rounded
+            with display digits; names are followed through their earlier plain assignments"""
+            if depth > 4:
+                return None
+            if observer_call(e):
+                return f"`{ast.unparse(e)[:50]}` answers in display precision"
+            if isinstance(e, ast.Call):
+                f = e.func
+                is_round = (isinstance(f, ast.Name) and f.id == 'round' and len(e.args) == 2) or \
+                    (isinstance(f, ast.Attribute) and f.attr == 'round' and e.args)
+                if is_round and not need_call and _display_digits(e.args[-1], assigns):
+                    return f"`{ast.unparse(e)[:50]}` is rounded for display"
+                if isinstance(f, ast.Attribute) and f.attr in ('sum', 'any', 'all', 'max', 'min', 'flatten', 'round', 'item', 'tolist'):
+                    return coarse(f.value, line, depth + 1, need_call)
+                if (isinstance(f, ast.Name) and f.id in NUM) or (isinstance(f, ast.Attribute) and isinstance(f.value, ast.Name) and
+                                                                  f.value.id in ('numpy', 'np', 'math')):
+                    for a_ in e.args:
+                        r = coarse(a_, line, depth + 1, need_call)
+                        if r:
+                            return r
+                return None
+            if isinstance(e, (ast.BinOp, ast.Compare, ast.BoolOp, ast.UnaryOp, ast.Subscript, ast.Starred)):
+                for ch in ast.iter_child_nodes(e):
+                    if isinstance(ch, ast.expr):
+                        r = coarse(ch, line, depth + 1, need_call)
+                        if r:
+                            return r
+                return None
+            if isinstance(e, ast.Name) and isinstance(e.ctx, ast.Load):
+                for v in assigns.get(e.id, []):
+                    if v.lineno < line:
+                        r = coarse(v, v.lineno, depth + 1, need_call)
+                        if r:
+                            return r
+            return None
+        for st in ast.walk(fi.node):
+            tests = []
+            if isinstance(st, (ast.If, ast.While)):
+                # a refusal is judged by the feasibility rules; here: tests that choose or skip work
+                if any(isinstance(b, ast.Raise) for b in st.body):
+                    continue
+                # a value rounded for display may choose what a text says; it may not end the operation
+                returns = any(isinstance(b, ast.Return) for b in st.body)
+                tests.append((st.test, not returns))
+            elif isinstance(st, ast.IfExp):
+                tests.append((st.test, True))
+            elif isinstance(st, ast.comprehension):
+                tests.extend((t, True) for t in st.ifs)
+            for t, need_call in tests:
+                r = coarse(t, t.lineno, 0, need_call)
+                if r:
+                    bad.append((fi, t.lineno, ast.unparse(t)[:60], r))
+    anchor = model.func('Container.__init__')
+    for fi, line, txt, r in bad:
+        ctx.ob(rule, ctx.model.funcs.get(fi.qualname, anchor), line, f"{fi.qualname}: `{txt}` is not decided on a display value", False,
+               fact=r, why='amounts below the display resolution (0.5 uL by default) are treated as nothing: the work that moves, '
+                           'removes or records them is skipped', key=f"decision on a display value in {fi.qualname}")
+    ctx.ob(rule, anchor, anchor.node.lineno, 'no operation decides on the answer of a display observer', not bad,
+           fact=f"{n} functions examined; display observers: {sorted(obs)}", why='see the reports', key='display decisions', nontrivial=False)
+
+
+def _display_digits(d, assigns, depth=0):
+    if depth > 4:
+        return False
+    if 'precisions' in ast.unparse(d):
+        return True
+    if isinstance(d, ast.Name):
+        return any(_display_digits(v, assigns, depth + 1) for v in assigns.get(d.id, []))
+    return False
